@@ -11,6 +11,11 @@ tlbparsers_tx.py and only adds:
               S.load_hashmap(N, value_deserializer=T.deserialize)   -> Rd.loadHashmap N (T false) sp S   (inline `Hashmap N X`)
               S.load_hashmap_aug_e(N, x_deserializer=X, y_deserializer=Y) (keywords or positions; X, Y as above)
                                                                     -> Rd.loadHashmapAugE N X Y sp S     (`(dict, extras)` tuple)
+              <S.load_ref().begin_parse()>.load_hashmap(N, key_deserializer=lambda src: Builder().store_bits(src).to_slice().load_int(N),
+                   value_deserializer=lambda src: src.load_ref().begin_parse())
+                                                                    -> Rd.loadHashmapS N Rd.refSlice (signed keys, Slice values)
+              deserialize_shard_hashes(S)   (tlb/utils.py; its text and BinTree.deserialize are PINNED: a hand model)
+                                                                    -> Rd.loadShardHashes ShardDescr S
   returns     `return S.load_hashmap_aug_e(…)` : the parser returns the tuple itself (ShardAccounts, OldMcBlocksInfo)
   erased      the keyword argument `cell=` of `ShardAccount(…)` (a copy of the slice being parsed: bookkeeping, no schema field) is
               evaluated but not made part of the returned object (declared interface, as for `Transaction(cell=…)`).
@@ -46,9 +51,44 @@ CLASSES = [
     ('account', 'AccountStorage'), ('account', 'Account'), ('account', 'ShardAccount'),
     ('config', 'ValidatorSet'),
     ('block', 'ShardAccounts'), ('block', 'OldMcBlocksInfo'), ('block', 'BlockCreateStats'),
+    ('block', 'ConfigParams'), ('block', 'McStateExtra'),
 ]
 
 ERASED_KW = {('ShardAccount', 'cell')}
+
+# hand-modelled helper functions: their source text must be exactly this (ast.unparse), else the classes that call them are `lost`
+PINNED = {
+    ('utils', None, 'deserialize_shard_hashes'):
+        "def deserialize_shard_hashes(cell_slice: Slice):\n    from .block import BinTree, ShardDescr\n"
+        "    shard_hashes = cell_slice.load_dict(32, value_deserializer=lambda src: BinTree.deserialize(src.load_ref().begin_parse()))\n"
+        "    if shard_hashes:\n        for k in shard_hashes:\n            for i in range(len(shard_hashes[k].list)):\n"
+        "                if not shard_hashes[k].list[i].is_special():\n"
+        "                    shard_hashes[k].list[i] = ShardDescr.deserialize(shard_hashes[k].list[i])\n"
+        "                else:\n                    shard_hashes[k].list[i] = None\n    return shard_hashes",
+    ('block', 'BinTree', 'deserialize'):
+        "@classmethod\ndef deserialize(cls, cell_slice: Slice):\n    if cell_slice.is_special():\n        return cls([cell_slice])\n"
+        "    if cell_slice.load_bit():\n        return cls(cls.deserialize(cell_slice.load_ref().begin_parse()).list + "
+        "cls.deserialize(cell_slice.load_ref().begin_parse()).list)\n    else:\n        return cls([cell_slice])",
+    ('block', 'BinTree', '__init__'): "def __init__(self, list_: list):\n    self.list = list_",
+}
+KEY_SIGNED = 'lambda src: Builder().store_bits(src).to_slice().load_int({n})'
+VAL_REFSLICE = 'lambda src: src.load_ref().begin_parse()'
+
+
+def check_pinned(tr):
+    for (mod, cls, name), text in PINNED.items():
+        tree = tr.module(mod)
+        body = tree.body
+        if cls is not None:
+            body = [n for n in tree.body if isinstance(n, ast.ClassDef) and n.name == cls]
+            body = body[0].body if body else []
+        fn = [n for n in body if isinstance(n, ast.FunctionDef) and n.name == name]
+        if len(fn) != 1:
+            raise Untranslatable(f'{cls or mod}.{name} not found')
+        fn = copy.deepcopy(fn[0])
+        fn.body = [x for x in fn.body if not (isinstance(x, ast.Expr) and isinstance(x.value, ast.Constant))]
+        if ast.unparse(fn) != text:
+            raise Untranslatable(f'{cls or mod}.{name} is hand-modelled (Rd.loadShardHashes) and its text changed')
 
 
 class FnBlk(TX.FnTx):
@@ -77,6 +117,28 @@ class FnBlk(TX.FnTx):
     def call(self, e, env, out):
         ctx = self.ctx
         f = e.func
+        if isinstance(f, ast.Name) and f.id == 'deserialize_shard_hashes' and len(e.args) == 1 and not e.keywords \
+                and isinstance(e.args[0], ast.Name) and isinstance(env.get(e.args[0].id), S):
+            check_pinned(ctx.tr)
+            if 'ShardDescr' not in ctx.tr.done:
+                raise Untranslatable('deserialize_shard_hashes needs ShardDescr')
+            self.note_call('ShardDescr')
+            s = env[e.args[0].id]
+            t = ctx.fresh()
+            out.append(f'let ({t}, {s.var}) ← Rd.loadShardHashes {self.deser_target("ShardDescr")} {s.var}')
+            return V(t, 'val')
+        if (isinstance(f, ast.Attribute) and f.attr == 'load_hashmap' and isinstance(f.value, ast.Call)
+                and isinstance(f.value.func, ast.Attribute) and f.value.func.attr == 'begin_parse'
+                and len(e.args) == 1 and const_int(e.args[0], env) is not None and len(e.keywords) == 2
+                and {k.arg for k in e.keywords} == {'key_deserializer', 'value_deserializer'}):
+            n = const_int(e.args[0], env)
+            kw = {k.arg: ast.unparse(k.value) for k in e.keywords}
+            if kw['key_deserializer'] != KEY_SIGNED.format(n=n) or kw['value_deserializer'] != VAL_REFSLICE:
+                raise Untranslatable('load_hashmap with a key_deserializer: only the signed-key / Slice-value form of ConfigParams')
+            s, _ = self.slice_of(f.value, env, out)
+            t = ctx.fresh()
+            out.append(f'let ({t}, _) ← Rd.loadHashmapS {n} Rd.refSlice {s.sp} {s.var}')
+            return V(t, 'dict')
         if isinstance(f, ast.Attribute) and isinstance(f.value, ast.Name) and isinstance(env.get(f.value.id), S) \
                 and f.attr in ('load_dict', 'load_hashmap'):
             s = env[f.value.id]
